@@ -1,6 +1,6 @@
 //! Byte-level entry points for the libFuzzer targets (/verif/fuzz): the bytes are decoded into the
 //! same structured cases as the proptest sub-checks and judged by the same oracle functions.
-use crate::props::{c01, c10, c20};
+use crate::props::{c01, c10, c14, c18, c19, c20};
 use crate::runner::*;
 use serde_json::{json, Value};
 
@@ -89,6 +89,86 @@ pub fn decode_c20(data: &[u8]) -> c20::Hist {
     c20::Hist { kind, observe, universe, ops }
 }
 
+/// C19: entry point, vertex count 2..=10, source, sink, then edges as byte pairs
+pub fn decode_c19(data: &[u8]) -> c19::CutCase {
+    let b = |k: usize| data.get(k).copied().unwrap_or(0) as usize;
+    let kind = (b(0) % 4) as u8;
+    let n = 2 + b(1) % 9;
+    let s = b(2) % n;
+    let mut t = b(3) % n;
+    if t == s {
+        t = (s + 1) % n;
+    }
+    let mut edges = vec![];
+    let mut i = 4;
+    while i + 1 < data.len() && edges.len() < 28 {
+        let (a, c) = (data[i] as usize % n, data[i + 1] as usize % n);
+        i += 2;
+        if a != c && !edges.contains(&(a, c)) {
+            edges.push((a, c));
+        }
+    }
+    c19::CutCase { kind, edges, s, t }
+}
+
+/// C18: backend, representation, shape, then entries as (value byte, scale byte) pairs
+pub fn decode_c18(data: &[u8]) -> c18::MatCase {
+    let b = |k: usize| data.get(k).copied().unwrap_or(0);
+    let backend = b(0) % 7;
+    let twin = b(1) & 1 == 1;
+    let rows = 1 + (b(2) % 6) as usize;
+    let cols = 1 + (b(3) % 6) as usize;
+    let k = 1 + (b(4) % 3) as usize;
+    const SCALE: [i64; 6] = [1, 1, 1, 1, 97, 1_000_003];
+    let entry = |pos: usize| -> i64 {
+        let v = b(5 + 2 * pos) as i8 as i64;
+        let sc = b(6 + 2 * pos);
+        // small entries most of the time; a planted zero keeps rank-deficient shapes reachable
+        (v % 8) * SCALE[(sc % 6) as usize] + if sc >= 250 { v } else { 0 }
+    };
+    let a: Vec<i64> = (0..rows * cols).map(entry).collect();
+    let bb: Vec<i64> = (0..rows * k).map(|j| entry(rows * cols + j)).collect();
+    c18::MatCase { backend, twin, rows, cols, a, k, b: bb }
+}
+
+/// C14: generator count, relator count, relators, then the recipe for the equivalent presentation
+pub fn decode_c14(data: &[u8]) -> c14::Pres {
+    let mut i = 0;
+    let mut next = || {
+        let x = data.get(i).copied().unwrap_or(0);
+        i += 1;
+        x
+    };
+    let nr_gens = 1 + (next() % 5) as usize;
+    let nrels = (next() % 6) as usize;
+    let mut rels = vec![];
+    for _ in 0..nrels {
+        let len = (next() % 10) as usize;
+        let mut w = vec![];
+        for _ in 0..len {
+            let x = next() as usize % (2 * nr_gens);
+            w.push(if x < nr_gens { x as i64 + 1 } else { -((x - nr_gens) as i64 + 1) });
+        }
+        rels.push(w);
+    }
+    let twist = (0..nrels).map(|_| { let (a, c, l) = (next(), next(), next()); (a % 8, c & 1 == 1, (l as usize % (2 * nr_gens + 1)) as i64 - nr_gens as i64) }).collect();
+    let order = (0..2).map(|_| (next(), next())).collect();
+    let gen_swaps = (0..2).map(|_| (next(), next())).collect();
+    let gen_flip = next() as u32;
+    let extra = if nrels > 0 { vec![(next(), next(), next() & 1 == 1)] } else { vec![] };
+    c14::Pres { nr_gens, rels, twist, order, gen_swaps, gen_flip, extra }
+}
+
+pub fn c19_cuts(data: &[u8]) -> Result<(), String> {
+    run(&c19::SUB_CUT, &decode_c19(data))
+}
+pub fn c18_matrix(data: &[u8]) -> Result<(), String> {
+    run(&c18::SUB_MATRIX, &decode_c18(data))
+}
+pub fn c14_invariants(data: &[u8]) -> Result<(), String> {
+    run(&c14::SUB_PRES, &decode_c14(data))
+}
+
 pub fn c01_parse(data: &[u8]) -> Result<(), String> {
     run(&c01::SUB_PARSE, &decode_c01(data))
 }
@@ -105,6 +185,9 @@ pub fn artifact_to_replay(prop: &str, data: &[u8]) -> Option<Value> {
         "C01" => ("parse_total", decode_c01(data).encode()),
         "C10" => ("history", decode_c10(data).encode()),
         "C20" => ("history", decode_c20(data).encode()),
+        "C19" => ("cut", decode_c19(data).encode()),
+        "C18" => ("matrix", decode_c18(data).encode()),
+        "C14" => ("invariants", decode_c14(data).encode()),
         _ => return None,
     };
     Some(json!({"property": prop, "subcheck": sub, "case": case, "observed": "libFuzzer crash artifact (decoded)", "artifact_bytes": data}))
@@ -115,6 +198,9 @@ pub fn target_of(prop: &str) -> Option<&'static str> {
         "C01" => Some("c01_parse"),
         "C10" => Some("c10_words"),
         "C20" => Some("c20_partition"),
+        "C19" => Some("c19_cuts"),
+        "C18" => Some("c18_matrix"),
+        "C14" => Some("c14_invariants"),
         _ => None,
     }
 }
@@ -135,6 +221,9 @@ pub fn seed_corpus(prop: &str) -> Vec<Vec<u8>> {
         }
         "C10" => (0..16u8).map(|k| (0..48u8).map(|j| j.wrapping_mul(37).wrapping_add(k.wrapping_mul(11))).collect()).collect(),
         "C20" => (0..16u8).map(|k| (0..90u8).map(|j| j.wrapping_mul(29).wrapping_add(k.wrapping_mul(7))).collect()).collect(),
+        "C19" => (0..16u8).map(|k| (0..40u8).map(|j| j.wrapping_mul(31).wrapping_add(k.wrapping_mul(13))).collect()).collect(),
+        "C18" => (0..16u8).map(|k| (0..96u8).map(|j| j.wrapping_mul(41).wrapping_add(k.wrapping_mul(17))).collect()).collect(),
+        "C14" => (0..16u8).map(|k| (0..80u8).map(|j| j.wrapping_mul(23).wrapping_add(k.wrapping_mul(19))).collect()).collect(),
         _ => vec![],
     }
 }
